@@ -116,7 +116,7 @@ Verdict(i) ==
   \cup F("QueriesLive", QueriesLive(post) \/ (~first /\ ~QueriesLive(pre)))
   \cup F("SessionNodeLive", SessionNodeLive(post) \/ (~first /\ ~SessionNodeLive(pre)))
   \cup F("NoOrphans", NoOrphans(post) \/ (~first /\ ~NoOrphans(pre)))
-  \cup F("EndsCascade", EndsCascade(pre, post))
+  \cup F("EndsCascade", EndsCascadeM(pre, post, istxn /\ Len(c.ops) > 1))
   \cup F("CreateIndexStable", CreateIndexStable(pre, post, c.idx))
   \cup F("ModifyIndexRule", ModifyIndexRule(pre, post, c.idx))
   \cup (IF "reads" \in DOMAIN e THEN ReadsJudge(post, e.reads) ELSE {})
